@@ -1513,3 +1513,17 @@ Proof.
   destruct (unique_encodes_dense m subs _ mp sz _ HM M EM) as [rows [Er [Lr Hr]]].
   exists M, rows. repeat split; auto.
 Qed.
+
+Lemma subs_okb_ok m subs : subs_okb m subs = true ->
+  length subs = count_unmasked m /\ forall i, (i < length subs)%nat -> (1 <= nth i subs 0)%nat.
+Proof.
+  unfold subs_okb. rewrite andb_true_iff, Nat.eqb_eq, forallb_forall. intros [A B]. split; [exact A|].
+  intros i Hi. apply Nat.leb_le, B, nth_In, Hi.
+Qed.
+Lemma mapper_okb_ok m subs P mp sz : mapper_okb m subs P mp sz = true -> mapper_ok m subs P mp sz.
+Proof.
+  unfold mapper_okb. rewrite andb_true_iff. intros [A B]. destruct (subs_okb_ok _ _ A) as [A1 A2].
+  constructor; auto. intros s k Hs Hk. rewrite forallb_forall in B.
+  specialize (B s ltac:(apply in_seq; lia)). rewrite forallb_forall in B. specialize (B k ltac:(apply in_seq; lia)).
+  apply andb_true_iff in B. destruct B as [B1 B2]. apply Z.leb_le in B1. apply Z.ltb_lt in B2. lia.
+Qed.
